@@ -58,5 +58,9 @@ func main() {
 	if p := lg.Panics(); len(p) > 0 {
 		first = p[0]
 	}
-	fmt.Printf("connection_closed=%v library_panics=%d first=%q\n", closed, len(lg.Panics()), first)
+	line := fmt.Sprintf("probe connection_closed=%v library_panics=%d first=%q", closed, len(lg.Panics()), first)
+	if closed || len(lg.Panics()) > 0 {
+		line += " VIOL channel-end-disturbed-connection"
+	}
+	fmt.Println(line)
 }
